@@ -50,6 +50,7 @@ def format_int(v: SInt, spec: str):
     z = v.z
     absz = z3.If(z >= 0, z, -z)
     digits = c.fresh_str('digits')       # decimal digits of |v| without padding
+    digits = digits.z
     ndig = z3.Length(digits)
     c.assume(z3.InRe(digits, NAT_RE))
     # length of the digit string is determined by the magnitude (for |v| < 10^6: enough for the uses here)
@@ -64,13 +65,13 @@ def format_int(v: SInt, spec: str):
     sign = z3.If(z < 0, z3.StringVal('-'), z3.StringVal('+' if plus else ''))
     if zero and width:
         padlen = z3.If(width - z3.Length(sign) - ndig > 0, width - z3.Length(sign) - ndig, 0)
-        pad = c.fresh_str('pad')
+        pad = c.fresh_str('pad').z
         c.assume(z3.InRe(pad, z3.Star(z3.Re('0'))))
         c.assume(z3.Length(pad) == padlen)
         body = z3.Concat(sign, pad, digits)
     elif width:
         padlen = z3.If(width - z3.Length(sign) - ndig > 0, width - z3.Length(sign) - ndig, 0)
-        pad = c.fresh_str('pad')
+        pad = c.fresh_str('pad').z
         c.assume(z3.InRe(pad, z3.Star(z3.Re(' '))))
         c.assume(z3.Length(pad) == padlen)
         body = z3.Concat(pad, sign, digits)
@@ -158,13 +159,43 @@ def int_of_sstr(s: SStr):
     return mk_int(_decode_fn()(s.z))
 
 
-def float_of_sstr(s: SStr):
+_FLOAT_RE = [None]
+
+
+def py_float_re():
+    """PY-FLOAT-GRAMMAR: the strings float() accepts (finite literals; inf/nan spelled out)."""
+    if _FLOAT_RE[0] is None:
+        from .regex import class_ranges, ranges_re
+        d = ranges_re(class_ranges('digit'))
+        ws = z3.Star(ranges_re(class_ranges('space')))
+        digitpart = z3.Concat(d, z3.Star(z3.Concat(z3.Option(z3.Re('_')), d)))
+        sign = z3.Option(z3.Union(z3.Re('+'), z3.Re('-')))
+        mant = z3.Union(z3.Concat(digitpart, z3.Option(z3.Concat(z3.Re('.'), z3.Option(digitpart)))),
+                        z3.Concat(z3.Re('.'), digitpart))
+        exp = z3.Option(z3.Concat(z3.Union(z3.Re('e'), z3.Re('E')), sign, digitpart))
+
+        def ci(word):
+            return z3.Concat(*[z3.Union(z3.Re(ch.lower()), z3.Re(ch.upper())) for ch in word])
+        special = z3.Union(ci('inf'), ci('infinity'), ci('nan'))
+        _FLOAT_RE[0] = z3.Concat(ws, sign, z3.Union(z3.Concat(mant, exp), special), ws)
+    return _FLOAT_RE[0]
+
+
+def str2float_fn():
     c = core.ctx()
     f = getattr(c, '_str2float', None)
     if f is None:
         f = c._str2float = z3.Function('str2float', z3.StringSort(), z3.RealSort())
+    return f
+
+
+def float_of_sstr(s: SStr):
+    c = core.ctx()
+    c.lib_used.add('PY-FLOAT-GRAMMAR')
+    if not c.branch(z3.InRe(s.z, py_float_re())):
+        raise PyRaise(ExcObj(ValueError, ('could not convert string to float',)))
     c.event('float()', s)
-    return core.mk_real(f(s.z))
+    return core.mk_real(str2float_fn()(s.z))
 
 
 def sstr_method(s: SStr, name):
